@@ -295,6 +295,8 @@ pub struct StreamCfg {
     pub risky_mates: bool,
     pub missing_quals: bool,
     pub missing_bases_mapped: bool,
+    /// records that are not flagged unmapped keep their bases but lose their CIGAR (CIGAR `*`)
+    pub missing_cigar_mapped: bool,
     pub dup_names: bool,
     pub empty_names: bool,
     pub empty_unmapped: bool,
@@ -501,6 +503,8 @@ pub fn gen_stream(rng: &mut Rng, cfg: &StreamCfg) -> Stream {
             if cfg.missing_bases_mapped && r.flag & 4 == 0 && rng.chance(1, 6) {
                 r.seq.clear();
                 r.qual.clear();
+            } else if cfg.missing_cigar_mapped && r.flag & 4 == 0 && rng.chance(1, 6) {
+                r.cigar.clear();
             }
         }
         templates.push(tpl);
@@ -662,7 +666,30 @@ fn push_feat(rng: &mut Rng, w: &mut CaseWriter) {
         }
         _ => {}
     }
-    let qual = if qual_missing || seq.is_empty() { vec![] } else { gen_quals(rng, seq.len()) };
+    let mut cigar = cigar;
+    let mut qual = if qual_missing || seq.is_empty() { vec![] } else { gen_quals(rng, seq.len()) };
+    match rng.below(40) {
+        // bases with CIGAR `*` (/repo fe42e80): stored as one soft clip
+        0 | 1 => cigar = "*".into(),
+        // quality scores not as long as the read (/repo 8d67724)
+        2 if !qual.is_empty() => {
+            if rng.chance(1, 2) { qual.pop(); } else { qual.push(30); }
+        }
+        // SEQ `*` with a CIGAR and quality scores of the CIGAR's read length, or of another length
+        3 | 4 => {
+            seq.clear();
+            let rl: usize = ops.iter().filter(|o| o.kind().consumes_read()).map(|o| o.len()).sum();
+            let l = match rng.below(3) { 0 => rl, 1 => rl + 1, _ => 0 };
+            qual = gen_quals(rng, l);
+        }
+        // neither bases nor CIGAR
+        5 => {
+            seq.clear();
+            qual.clear();
+            cigar = "*".into();
+        }
+        _ => {}
+    }
     w.push("feat", vec![hex(&refb), start.to_string(), cigar, hex(&seq), hex(&qual)]);
 }
 
@@ -711,6 +738,7 @@ pub fn generate(rng: &mut Rng, tier: &str, w: &mut CaseWriter) {
             risky_mates: i % 7 == 3,
             missing_quals: i % 9 == 4,
             missing_bases_mapped: i % 25 == 7,
+            missing_cigar_mapped: i % 25 == 12,
             dup_names: i % 11 == 5,
             empty_names: i % 13 == 6,
             empty_unmapped: i % 17 == 2,
@@ -725,7 +753,7 @@ pub fn generate(rng: &mut Rng, tier: &str, w: &mut CaseWriter) {
     for _ in 0..n_feat {
         push_feat(rng, w);
     }
-    let cfg = StreamCfg { risky_mates: false, missing_quals: false, missing_bases_mapped: false, dup_names: false, empty_names: false, empty_unmapped: false, max_ref: 600, max_records: 30 };
+    let cfg = StreamCfg { risky_mates: false, missing_quals: false, missing_bases_mapped: false, missing_cigar_mapped: false, dup_names: false, empty_names: false, empty_unmapped: false, max_ref: 600, max_records: 30 };
     for _ in 0..n_cont {
         push_cont(rng, w, &cfg);
     }
